@@ -182,11 +182,18 @@ def visited (pos : Pos) : List Seg → List Pos
 
 /-! ## The import statement (`importRuntime.Eval`) and the command line tool
 
-`importRuntime.Eval` evaluates the path expression, hands `fmt.Sprint` of it to the provider's
-CONFIGURED locator, parses the returned text under the import path as source name and evaluates
-it — which may execute further import statements. Neither the source name of the importing
-program (`rt.node.Token.Lsource`) nor anything else takes part in locating the file.
-`CLIInterpreter.CreateRuntimeProvider` builds the locator as `FileImportLocator{Root: *i.Dir}`. -/
+`importRuntime.Eval` evaluates the path expression, calls `Resolve` on a locator with a path string,
+parses the returned text under the import path as source name and evaluates it — which may execute
+further import statements. WHICH locator and WHICH string is a fact about rt_general.go that is
+regenerated from the tree under test on every run (`Ecal.Gen.C17.importFacts`); the model is
+parameterised by it: where a fact does not hold, an adversary chooses (it sees the configured root,
+the source name `rt.node.Token.Lsource` of the importing program and the path value).
+`CLIInterpreter.CreateRuntimeProvider` builds the locator from the configured directory; whether
+its `Root` is that value itself is again a regenerated fact (`Ecal.Gen.C17.toolRootIsDir`).
+
+Go recurses without bound on cyclic imports (the process dies of stack exhaustion); the model's
+`fuel` turns that into "error, nothing further opened". The confinement theorems hold for every
+fuel; the harness's module files contain no cycle. -/
 
 /-- what a file contains, as far as imports are concerned -/
 inductive FileContent where
@@ -199,25 +206,37 @@ deriving Repr
 /-- the file system as `ReadFile` sees it: the content for a path string, `none` = error -/
 abbrev FS := Str → Option FileContent
 
-/-- the import statement `import "<p>"` in a program parsed under the source name `src`, with the
-    locator configured with `root`: the sentinel finally reached (`none` = error) and every string
-    handed to `ReadFile` on the way. `fuel` bounds the nesting. -/
-def importEval (fs : FS) (root : Str) : Nat → (src : Str) → (p : Str) → Option Nat × List Str
+/-- facts about `importRuntime.Eval` (regenerated from rt_general.go) -/
+structure ImportFacts where
+  /-- the receiver of the `Resolve` call is the provider's configured locator `rt.erp.ImportLocator` -/
+  receiverIsConfiguredLocator : Bool
+  /-- its argument is `fmt.Sprint` of the value of the path expression (child 0) and nothing else -/
+  argumentIsPathValue : Bool
+
+/-- the import statement `import <p>` in a program parsed under the source name `src`, in a provider
+    whose locator is configured with `root`: the sentinel finally reached (`none` = error) and every
+    string handed to `ReadFile` on the way. `adv root src p = (root', p')` is what an implementation for
+    which a fact does not hold may use instead. -/
+def importEval (F : ImportFacts) (adv : Str → Str → Str → Str × Str) (fs : FS) (root : Str) :
+    Nat → (src : Str) → (p : Str) → Option Nat × List Str
   | 0, _, _ => (none, [])
-  | fuel + 1, _, p =>
-    match resolve root p with
+  | fuel + 1, src, p =>
+    let root' := if F.receiverIsConfiguredLocator then root else (adv root src p).1
+    let p' := if F.argumentIsPathValue then p else (adv root src p).2
+    match resolve root' p' with
     | .opened q =>
       match fs q with
       | none => (none, [q])
       | some (.sentinel n) => (some n, [q])
       | some (.imports inner) =>
         -- the imported text is parsed under the name `p`; its import statement runs with that name
-        let r := importEval fs root fuel p inner
+        let r := importEval F adv fs root fuel p inner
         (r.1, q :: r.2)
     | _ => (none, [])
 
-/-- `CreateRuntimeProvider`: the locator's root is the configured directory string itself -/
-def toolLocatorRoot (dir : Str) : Str := dir
+/-- `CreateRuntimeProvider`: the locator's root for the configured directory string `dir`;
+    `adv` = what an implementation whose Root is not the configured value itself may compute -/
+def toolRoot (rootIsDir : Bool) (adv : Str → Str) (dir : Str) : Str := if rootIsDir then dir else adv dir
 
 /-! ## Specification -/
 
